@@ -1,4 +1,5 @@
 import IbModel.Model.Metrics
+import IbModel.Model.MetricsRun
 import IbModel.Proofs.Metrics
 /-!
 # C16 — metrics never lose concurrent updates and never influence results
@@ -420,5 +421,132 @@ theorem json_contains_registered_sequential (c0 : Collector) (h : List Call) (no
     rcases hreg with rfl | hreg
     · exact hmono t _ (keysOf_insertSec_self _ _ _)
     · exact ih _ hreg
+
+/-! ## JSON export with VALUES; the `execution_time_ms` member shadows a user metric of that name -/
+
+/-- the members of `to_json()` are exactly `jsonKeys` (so every key theorem above is about `toJson`) -/
+theorem toJson_keys (c : Collector) : (toJson c).map Prod.fst = jsonKeys c := by
+  have hm : (c.metrics.map (fun kv => (kv.1, JsonEntry.metric kv.2))).map Prod.fst = c.metrics.map Prod.fst := by
+    simp [List.map_map, Function.comp_def]
+  unfold toJson jsonKeys
+  cases hs : c.start <;> cases he : c.stop <;> simp only [keys_putJ, hm] <;> simp
+
+/-- **Values (`…_partial`).** Full statement wanted by the property: *for EVERY stored name `k`,
+    `to_json()[k].value` is the metric's value (= `snapshot()[k]`)*. That is FALSE for the one name
+    `execution_time_ms` once both stamps are set (`json_shadows_user_metric`). Proved: for every collector
+    state and every name `k` other than `execution_time_ms` — or any name while a stamp is missing —
+    the exported member is the stored metric, and a name that is not stored is not exported. -/
+theorem json_value_registered_partial (c : Collector) (k : String)
+    (h : k ≠ execKey ∨ c.start = none ∨ c.stop = none) :
+    getJ k (toJson c) = (lookup k (snapshot c)).map JsonEntry.metric := by
+  unfold toJson snapshot
+  rcases h with h | h | h
+  · cases hs : c.start <;> cases he : c.stop <;> simp only [getJ_map_metric]
+    rw [getJ_putJ_ne _ _ (Ne.symm h), getJ_map_metric]
+  · simp [h, getJ_map_metric]
+  · cases hs : c.start <;> simp [h, getJ_map_metric]
+
+/-- with both stamps, `execution_time_ms` is the elapsed time — whatever is stored under that name -/
+theorem json_exec_time_entry (c : Collector) (s e : Nat) (hs : c.start = some s) (he : c.stop = some e) :
+    getJ execKey (toJson c) = some (.execTime (e - s)) ∧ elapsed c = some (e - s) := by
+  simp [toJson, elapsed, hs, he, getJ_putJ_self]
+
+/-- **Negation witness (known finding `C16-json-exec-time-shadows-user-metric`).** A user counter
+    registered as `execution_time_ms` = 9 is in the snapshot, but after a run the export shows the elapsed
+    time under that key: the registered metric is NOT in the JSON export. -/
+theorem json_shadows_user_metric :
+    let c : Collector := ⟨[("execution_time_ms", .counter 9)], some 1, some 5⟩
+    lookup execKey (snapshot c) = some (.counter 9) ∧ getJ execKey (toJson c) = some (.execTime 4) ∧
+      getJ execKey (toJson c) ≠ (lookup execKey (snapshot c)).map JsonEntry.metric := by
+  decide
+
+/-! ## `u64`: the sum law is about runs in which `initial + Σ increments` fits the counter type -/
+
+/-- below the bound the `u64` code is the `Nat` model, with or without overflow checks -/
+theorem incAtomic64_eq_incAtomic (checks : Bool) (k : String) (v : Nat) (c : Collector)
+    (h : counterVal k c + v < u64Bound) : incAtomic64 checks k v c = some (incAtomic k v c) := by
+  unfold incAtomic64 incAtomic
+  cases hl : lookup k c.metrics with
+  | none => rfl
+  | some mv =>
+    cases mv with
+    | other t => rfl
+    | counter n =>
+      have : n + v < u64Bound := by simpa [counterVal, hl] using h
+      simp [this]
+
+/-- at the bound: with overflow checks the addition panics (call lost, state unchanged — `none`),
+    without them the counter wraps; either way the sum law fails, as it must for any `u64` counter -/
+theorem incAtomic64_overflow (k : String) (n v : Nat) (c : Collector)
+    (hl : lookup k c.metrics = some (.counter n)) (h : u64Bound ≤ n + v) :
+    incAtomic64 true k v c = none ∧
+      incAtomic64 false k v c = some (insertSec k (.counter ((n + v) % u64Bound)) c) := by
+  have : ¬ (n + v < u64Bound) := by omega
+  simp [incAtomic64, hl, this]
+
+/-- **No addition of any schedule overflows** when `initial + Σ all increments < 2^64`: at every point of
+    every schedule, every increment of `k` that is still to come finds `count + value < 2^64`, so the
+    `u64` code takes the `Nat` model's step (`incAtomic64 = some ∘ incAtomic`). Together with
+    `inc_atomic_sum` this is the sum law for the real `u64` counter. -/
+theorem inc_atomic_never_overflows (c0 : Collector) (threads : List (List Op)) (sched : List Nat) (k : String)
+    (hk : CounterOrAbsent k c0) (hops : ∀ op ∈ threads.flatten, IncOnlyOn k op)
+    (hb : counterVal k c0 + incSum k threads.flatten < u64Bound) (checks : Bool) (v : Nat)
+    (hv : Op.inc k v ∈ todoAll (run .atomic sched (Sys.init c0 threads)).ths) :
+    incAtomic64 checks k v (run .atomic sched (Sys.init c0 threads)).c
+      = some (incAtomic k v (run .atomic sched (Sys.init c0 threads)).c) := by
+  apply incAtomic64_eq_incAtomic
+  have h := inc_atomic_sum_prefix c0 threads sched k hk hops
+  simp only at h
+  have hle := incAmt_le_incSum_of_mem k _ _ hv
+  simp only [incAmt, if_true] at hle
+  omega
+
+/-! non-vacuity of the bound, and the boundary itself -/
+example : incAtomic64 true "c" 1 ⟨[("c", .counter (2 ^ 64 - 1))], none, none⟩ = none := by decide
+example : incAtomic64 false "c" 2 ⟨[("c", .counter (2 ^ 64 - 1))], none, none⟩
+    = some ⟨[("c", .counter 1)], none, none⟩ := by decide
+example : incAtomic64 true "c" 1 ⟨[("c", .counter (2 ^ 64 - 2))], none, none⟩
+    = some ⟨[("c", .counter (2 ^ 64 - 1))], none, none⟩ := by decide
+
+/-! ## `run_collect`: execution errors, a second run, and the PROGRAM model -/
+
+/-- an execution error is returned AFTER `record_metrics_end`: both stamps are set, elapsed is available -/
+theorem runCollect_exec_error {γ χ ε ρ : Type} (build : γ → Except ε χ) (exec : χ → Except ε ρ)
+    (t0 t1 : Nat) (p : Pipe γ) (c : Collector) (chain : χ) (e : ε) (hc : p.metrics = some c)
+    (hb : build p.graph = .ok chain) (he : exec chain = .error e) :
+    runCollect build exec t0 t1 p
+      = (.error e, { p with metrics := some (recordEnd t1 (recordStart t0 c)) }) := by
+  simp [runCollect, Pipe.recordMetricsStart, Pipe.recordMetricsEnd, hc, hb, he]
+
+/-- **A second run refreshes BOTH stamps**: whatever the first run left behind (and whatever its
+    outcome), after a second run whose planning succeeds the stamps are the second run's two clock
+    readings, so `elapsed()` is the duration of the LAST run, not of the first nor of both. -/
+theorem second_run_refreshes_stamps {γ χ ε ρ : Type} (build : γ → Except ε χ) (exec : χ → Except ε ρ)
+    (t0 t1 t2 t3 : Nat) (p : Pipe γ) (c : Collector) (chain : χ) (hc : p.metrics = some c)
+    (hb : build p.graph = .ok chain) :
+    ∃ c', (runCollectTwice build exec t0 t1 t2 t3 p).2.2.metrics = some c' ∧
+      c'.start = some t2 ∧ c'.stop = some t3 ∧ elapsed c' = some (t3 - t2) ∧ c'.metrics = c.metrics := by
+  simp only [runCollectTwice, runCollect, Pipe.recordMetricsStart, Pipe.recordMetricsEnd, hc, hb,
+    Option.map_some]
+  exact ⟨_, rfl, rfl, rfl, rfl, rfl⟩
+
+/-- **The collector never changes the result, on the program model.** `run_collect` with ANY collector
+    attached, at ANY clock readings, returns exactly what the engines of C01–C07 (`runSeq` / `runPar`:
+    planner + engine model) return for the pipeline's source and builder steps. The driver computes the
+    expected answer of every `MRUN`/`MPOISON`/`MSLEEP` case with `runCollectProg`. -/
+theorem collector_does_not_change_program_result (m : RunMode) (g : Graph) (t0 t1 : Nat) (c : Collector)
+    (p : Pipe Graph) (hg : p.graph = g) :
+    (runCollectProg m true true t0 t1 (p.setMetrics c)).1 = liftM (runPlain m g) ∧
+      (runCollectProg m true true t0 t1 { p with metrics := none }).1 = liftM (runPlain m g) := by
+  subst hg
+  cases m <;> simp [runCollectProg, runCollect, planOf, execMode, runPlain, runSeq, runPar,
+    Pipe.setMetrics, Pipe.recordMetricsStart]
+
+/-- `Pipeline::set_metrics` / `get_metrics` / `take_metrics`: the attached collector is the one handed
+    back, `take` leaves none behind, and none of them touches the node graph -/
+theorem pipe_set_get_take {γ : Type} (p : Pipe γ) (c : Collector) :
+    (p.setMetrics c).getMetrics = some c ∧ (p.setMetrics c).takeMetrics.1 = some c ∧
+      (p.setMetrics c).takeMetrics.2.getMetrics = none ∧ (p.setMetrics c).takeMetrics.2.graph = p.graph :=
+  ⟨rfl, rfl, rfl, rfl⟩
 
 end IB.Metrics
